@@ -439,9 +439,9 @@ def r5_no_write_back(ck: Check, repo: Repo, clone: Fn, copy_attrs: Fn) -> None:
     # population elements: only .clone()/.fitness/.index reads
     # (methods of the new list itself — the local returned as the new population — are not calls on members)
     newpop = _returned_name(tour.methods["select"], 1)
-    def _member_roots(fn: Fn) -> Set[str]:
+    def _member_roots(fn: Fn, seeds=("population",)) -> Set[str]:
         """names that may denote (a member of) the old population: the parameter, loop / comprehension variables over it, locals bound to population[...]"""
-        roots = {"population"}
+        roots = set(seeds)
         changed = True
         while changed:
             changed = False
@@ -474,9 +474,35 @@ def r5_no_write_back(ck: Check, repo: Repo, clone: Fn, copy_attrs: Fn) -> None:
                             changed = True
         return roots
 
-    for fn in (tour.methods["_elitism"], tour.methods["select"]):
+    # a step of _elitism / select may live in a further method of the class (a per-child helper): it is held to the same conditions, for the
+    # parameters through which (members of) the old population reach it
+    work = [(tour.methods["_elitism"], ("population",)), (tour.methods["select"], ("population",))]
+    done = {"_elitism", "select", "_tournament"}
+    while work:
+        fn, seeds = work.pop(0)
         own_list = (newpop + ".",) if (newpop is not None and fn.name == "select") else ()
-        members = _member_roots(fn)
+        members = _member_roots(fn, seeds)
+        for c in calls_in(fn.node):
+            h = repo.find_method(tour, c.func.attr) if isinstance(c.func, ast.Attribute) and dotted(c.func.value) == "self" else None
+            if h is None or h.name in done:
+                continue
+            done.add(h.name)
+            def _base(a: ast.AST) -> Optional[str]:
+                while isinstance(a, (ast.Subscript, ast.Attribute, ast.Starred)):
+                    a = a.value
+                return a.id if isinstance(a, ast.Name) else None
+            pos = [p for p in h.params if p != "self"]
+            passed = {pos[i] for i, a in enumerate(c.args) if i < len(pos) and _base(a) in members}
+            passed |= {k.arg for k in c.keywords if k.arg is not None and _base(k.value) in members}
+            for root in sorted(passed) + ["self"]:
+                st = stores_to(h.node, root)
+                ck.ob("C01.5", h, st[0][0] if st else h.node, not st, f"{h.qualname} performs no store into `{root}`",
+                      detail="; ".join(d for _, d in st), construct=f"stores into {root} in {h.qualname}" if not st else None)
+                muts = [m for m in inplace_mutations(h.node, root)]
+                ck.ob("C01.5", h, muts[0][0] if muts else h.node, not muts, f"{h.qualname} mutates no container of `{root}` in place",
+                      detail="; ".join(f"{a}{hw}" for _, a, hw in muts),
+                      construct=f"in-place mutations of {root}.* in {h.qualname}" if not muts else None)
+            work.append((h, tuple(sorted(passed))))
         for c in calls_in(fn.node):
             recv = c.func.value if isinstance(c.func, ast.Attribute) else None
             while isinstance(recv, (ast.Subscript, ast.Attribute)):
@@ -596,8 +622,10 @@ def _strip_not(test: ast.AST, pol: bool = True) -> Tuple[ast.AST, bool]:
     return test, pol
 
 
-def _display_members(v: ast.AST, n: Node, lb: ListBuild, conds: List[Tuple[ast.AST, bool]], base: int = 0) -> Optional[int]:
-    """Record the members of the list-valued expression v; the number of positions it fills when that is fixed (None otherwise)."""
+def _display_members(v: ast.AST, n: Node, lb: ListBuild, conds: List[Tuple[ast.AST, bool]], base: int = 0, cfg: Optional[CFG] = None,
+                     seen: Optional[Set[str]] = None) -> Optional[int]:
+    """Record the members of the list-valued expression v; the number of positions it fills when that is fixed (None otherwise).
+    With `cfg`: an operand of a concatenation that is a local contributes the members of that local list (`a + b` copies the elements of both into a new list)."""
     if isinstance(v, ast.List):
         for i, x in enumerate(v.elts):
             if isinstance(x, ast.Starred):
@@ -609,12 +637,17 @@ def _display_members(v: ast.AST, n: Node, lb: ListBuild, conds: List[Tuple[ast.A
         return 0
     if isinstance(v, ast.IfExp):
         t, pol = _strip_not(v.test)
-        a = _display_members(v.body, n, lb, conds + [(t, pol)], base)
-        b = _display_members(v.orelse, n, lb, conds + [(t, not pol)], base)
+        a = _display_members(v.body, n, lb, conds + [(t, pol)], base, cfg, seen)
+        b = _display_members(v.orelse, n, lb, conds + [(t, not pol)], base, cfg, seen)
         return a if a == b else None
     if isinstance(v, ast.BinOp) and isinstance(v.op, ast.Add):
-        a = _display_members(v.left, n, lb, conds, base)
-        b = _display_members(v.right, n, lb, conds, base + (a or 0))
+        def operand(x: ast.AST, at: int) -> Optional[int]:
+            if isinstance(x, ast.Name) and cfg is not None:
+                _build_local(cfg, x.id, lb, seen if seen is not None else set())
+                return None
+            return _display_members(x, n, lb, conds, at, cfg, seen)
+        a = operand(v.left, base)
+        b = operand(v.right, base + (a or 0))
         return a + b if a is not None and b is not None else None
     if isinstance(v, ast.ListComp):
         lb.members.append(Member(v.elt, n, n.ast, "comp", list(conds), base))
@@ -629,17 +662,54 @@ def list_build(cfg: CFG, name: Optional[str]) -> ListBuild:
     if name is None:
         lb.problems.append("no local list")
         return lb
+    return _build_local(cfg, name, lb, set())
+
+
+def returned_list_build(cfg: CFG, pos: Optional[int] = None) -> ListBuild:
+    """The construction of the list the function of `cfg` returns (element `pos` of the returned tuple when given): the local list it returns, or the
+    value of the returned expression — a display / comprehension / conditional expression / concatenation, whose operands may be local lists."""
+    lb = ListBuild(None)
+    rets = [n for n in cfg.live_nodes() if n.kind == "stmt" and isinstance(n.ast, ast.Return)]
+    if not rets:
+        lb.problems.append("no local list")
+    seen: Set[str] = set()
+    for n in rets:
+        v = n.ast.value
+        if pos is not None:
+            v = v.elts[pos] if isinstance(v, ast.Tuple) and len(v.elts) > pos else None
+        if v is None:
+            lb.not_lists.append(n.ast)
+            lb.problems.append(f"`{short(n.ast, 60)}` returns no list")
+        elif isinstance(v, ast.Name):
+            lb.name = lb.name or v.id
+            _build_local(cfg, v.id, lb, seen)
+        else:
+            before = len(lb.not_lists)
+            _display_members(v, n, lb, [], 0, cfg, seen)
+            if len(lb.not_lists) == before:
+                lb.defs.append(n)  # the returned expression makes the new list
+    return lb
+
+
+def _build_local(cfg: CFG, name: str, lb: ListBuild, seen: Set[str]) -> ListBuild:
+    """Add the construction of the local list `name` to lb."""
+    if name in seen:
+        return lb
+    seen.add(name)
+    own_defs: List[Node] = []  # the bindings of this name
+    added: List[Member] = []  # what is added to the list through this name
     for n in cfg.live_nodes():
         keys = [k for k, strong in cfg.defs_at(n) if k == name and strong]
         if not keys:
             continue
         v = cfg.value_of_def(n, name) if n.kind == "stmt" and isinstance(n.ast, (ast.Assign, ast.AnnAssign)) else None
         lb.defs.append(n)
+        own_defs.append(n)
         if v is None:
             lb.not_lists.append(n.ast)
             lb.problems.append(f"`{name}` re-bound by {short(n.ast, 60)}")
         else:
-            _display_members(v, n, lb, [])
+            _display_members(v, n, lb, [], 0, cfg, seen)
     for c in calls_in(cfg.fn):
         f = c.func
         if not (isinstance(f, ast.Attribute) and isinstance(f.value, ast.Name) and f.value.id == name):
@@ -648,7 +718,7 @@ def list_build(cfg: CFG, name: Optional[str]) -> ListBuild:
         if n is None:
             continue  # dead code
         if f.attr in ("append", "insert", "extend") and c.args:
-            lb.members.append(Member(c.args[-1], n, c, f.attr))
+            added.append(Member(c.args[-1], n, c, f.attr))
         elif f.attr in ("pop", "remove", "clear", "sort", "reverse", "__setitem__", "__delitem__", "__iadd__"):
             lb.problems.append(f"`{short(c, 60)}` changes the list in a way the model does not describe")
     for n in cfg.live_nodes():
@@ -657,12 +727,11 @@ def list_build(cfg: CFG, name: Optional[str]) -> ListBuild:
             if any(isinstance(t, ast.Subscript) and dotted(t.value) == name for t in tg):
                 lb.problems.append(f"element store / deletion `{short(n.ast, 60)}`")
     # the list is bound before anything is added, and never re-bound afterwards
-    for m in lb.members:
-        if m.how in ("display", "comp"):
-            continue
-        if not any(d in lb.defs for d in cfg.defs_reaching(m.node, name)):
+    lb.members += added
+    for m in added:
+        if not any(d in own_defs for d in cfg.defs_reaching(m.node, name)):
             lb.problems.append(f"`{short(m.site, 60)}` is not reached by a binding of `{name}`")
-        if any(d.id in cfg.reachable_from(m.node) for d in lb.defs):
+        if any(d.id in cfg.reachable_from(m.node) for d in own_defs):
             lb.problems.append(f"`{name}` can be re-bound after `{short(m.site, 60)}`")
     return lb
 
@@ -674,13 +743,18 @@ def r8_tournament(ck: Check, repo: Repo) -> None:
     eli = tour.methods["_elitism"]
     cfg = CFG(sel.node)
     ev = OwnEval(cfg, alias_roots={"population"})
-    newpop = _returned_name(sel, 1)  # the local returned as the new population
-    # every way a member gets into it: append / insert / extend calls and the elements of the list display(s) it is bound to
-    lb = list_build(cfg, newpop)
+    # the new population: what select returns second — a local list, or an expression that makes a list (display / comprehension / concatenation
+    # of local lists); every way a member gets into it: append / insert / extend calls and the elements of the list display(s) / comprehension(s)
+    lb = returned_list_build(cfg, 1)
+    # a member may be made by a method of the class (the per-child step as a helper): what the helper returns is then the member
+    def helper(c: ast.Call) -> Optional[ast.AST]:
+        f = c.func
+        m = repo.find_method(tour, f.attr) if isinstance(f, ast.Attribute) and dotted(f.value) == "self" else None
+        return m.node if m is not None else None
     ck.floor("C01.8", len(lb.members), 2, "member sites building the new population (append calls / elements of its list display)", fn=sel)
     for m in lb.members:
         o = ev.own(m.elt, m.node)
-        is_clone = _is_clone_expr(m.elt, cfg, m.node)
+        is_clone = _is_clone_expr(m.elt, cfg, m.node, helper)
         ck.ob("C01.8", sel, m.site if m.how not in ("display", "comp") else m.elt, o.level == FRESH and is_clone, "member appended to the new population is a clone",
               detail=f"{o.level}: {o.why}")
     # the population list itself is a new list: every binding of the name is a list display / list() / comprehension (also through a conditional expression or `+`)
@@ -697,14 +771,25 @@ def r8_tournament(ck: Check, repo: Repo) -> None:
               detail=f"{o.level}: {o.why}")
 
 
-def _is_clone_expr(e: ast.AST, cfg: CFG, n) -> bool:
+def _is_clone_expr(e: ast.AST, cfg: CFG, n, helper=None, depth: int = 2) -> bool:
+    """e is the result of a .clone( call: directly, through locals, or (with `helper`: call -> function definition it denotes) as the value every
+    `return` of a called helper hands back."""
     if isinstance(e, ast.Call) and isinstance(e.func, ast.Attribute) and e.func.attr == "clone":
         return True
     if isinstance(e, ast.Name):
         defs = cfg.defs_reaching(n, e.id)
         return bool(defs) and all(
-            (v := cfg.value_of_def(d, e.id)) is not None and _is_clone_expr(v, cfg, d) for d in defs
+            (v := cfg.value_of_def(d, e.id)) is not None and _is_clone_expr(v, cfg, d, helper, depth) for d in defs
         )
+    if isinstance(e, ast.IfExp):
+        return _is_clone_expr(e.body, cfg, n, helper, depth) and _is_clone_expr(e.orelse, cfg, n, helper, depth)
+    if isinstance(e, ast.Call) and helper is not None and depth > 0:
+        fd = helper(e)
+        if fd is None:
+            return False
+        hcfg = CFG(fd)
+        rets = [r for r in hcfg.live_nodes() if r.kind == "stmt" and isinstance(r.ast, ast.Return)]
+        return bool(rets) and all(r.ast.value is not None and _is_clone_expr(r.ast.value, hcfg, r, helper, depth - 1) for r in rets)
     return False
 
 
@@ -738,9 +823,11 @@ def r9_inspect_excludes(ck: Check, repo: Repo, inspect_attrs: Fn, clone: Fn) -> 
     new = _new_object_name(clone)  # the local holding the copy
     optcfg = _loop_var_over(clone, "self.registry.optimizers")  # the registry entry of the optimizer being re-created
     # the container(s) whose elements are installed on the copy as its networks: setattr(<copy>, _, <container>[_])
-    installed = [c for c in calls_in(clone.node) if _is_setattr_on(c, new) and isinstance(c.args[2], ast.Subscript)
-                 and isinstance(c.args[2].value, ast.Name)]
-    own_nets = {c.args[2].value.id for c in installed}
+    # — the value written as that element, or a local that is also stored into the container under the same key (`v = ...; <container>[k] = v;
+    # setattr(<copy>, k, v)`)
+    inst = _installed_elements(cfg, clone, new)
+    installed = [c for c, _ in inst]
+    own_nets = {name for _, name in inst}
     ows = [c for c in calls_in(clone.node) if call_name(c) == "OptimizerWrapper"]
     ck.floor("C01.9", len(ows), 1, "OptimizerWrapper construction in clone()", fn=clone)
     for c in ows:
@@ -778,6 +865,39 @@ def r9_inspect_excludes(ck: Check, repo: Repo, inspect_attrs: Fn, clone: Fn) -> 
         ok = hn is not None and on is not None and cfg.dominates(hn, on) and all(s is not None and hn.id in cfg.reachable_from(s) for s in sets)
     ck.ob("C01.9", clone, hooks[0] if hooks else clone.node, ok,
           "clone.mutation_hook() runs after the cloned networks are installed and before optimizers are built over them")
+
+
+def _same_value(cfg: CFG, a: ast.AST, na, b: ast.AST, nb) -> bool:
+    """Expression a at node na and b at nb are the same term over the same definitions of their variables."""
+    if ast.dump(a) != ast.dump(b):
+        return False
+    for x in ast.walk(a):
+        if isinstance(x, ast.Name) and isinstance(x.ctx, ast.Load):
+            da, db = {d.id for d in cfg.defs_reaching(na, x.id)}, {d.id for d in cfg.defs_reaching(nb, x.id)}
+            if da != db:
+                return False
+    return True
+
+
+def _installed_elements(cfg: CFG, fn: Fn, new: Optional[str]) -> List[Tuple[ast.Call, str]]:
+    """(call, container) for every `setattr(<copy>, k, v)` whose value v is the element `<container>[k]` of a local container: written as that
+    element, or the very object a store `<container>[k] = v` puts there (same key, same definitions of v, one statement always runs with the other)."""
+    out: List[Tuple[ast.Call, str]] = []
+    stores = [(n, t) for n in cfg.live_nodes() if n.kind == "stmt" and isinstance(n.ast, ast.Assign)
+              for t in n.ast.targets if isinstance(t, ast.Subscript) and isinstance(t.value, ast.Name)]
+    for c in calls_in(fn.node):
+        if not _is_setattr_on(c, new):
+            continue
+        v, n = c.args[2], cfg.node_of(c)
+        if isinstance(v, ast.Subscript) and isinstance(v.value, ast.Name):
+            out.append((c, v.value.id))
+        elif isinstance(v, ast.Name) and n is not None:
+            for sn, t in stores:
+                if isinstance(sn.ast.value, ast.Name) and _same_value(cfg, sn.ast.value, sn, v, n) and _same_value(cfg, t.slice, sn, c.args[1], n) \
+                        and (cfg.dominates(sn, n) or cfg.dominates(n, sn)):
+                    out.append((c, t.value.id))
+                    break
+    return out
 
 
 def _roots(e: ast.AST, cfg: CFG, n, optcfg: Optional[str] = None, depth: int = 4) -> Set[str]:
@@ -839,4 +959,34 @@ VARIANTS = [
     ("old-list-on-one-arm", _T, _T_HEAD, "        new_population = [elite.clone(wrap=False)] if self.elitism else population\n        selection_size = self.population_size - 1 if self.elitism else 0\n", "fire", "C01.8"),
     ("old-list-copied-shallow", _T, "        new_population = []\n", "        new_population = list(population[:0])\n", "fire", "C01.8"),
     ("fitness-mutated-in-select", _T, "            actor_parent = population[self._tournament(rank)]\n", "            actor_parent = population[self._tournament(rank)]\n            actor_parent.fitness.append(0)\n", "fire", "C01.5"),
+]
+
+# select() as written today: everything after the call of _elitism
+_T_BODY = (_T_HEAD + "\n        # select parents of next gen using tournament selection\n        for idx in range(selection_size):\n            max_id += 1\n"
+           "            actor_parent = population[self._tournament(rank)]\n            new_individual = actor_parent.clone(max_id, wrap=False)\n"
+           "            new_population.append(new_individual)\n\n        return elite, new_population")
+# the same function with the per-child step in a method of its own, the children made by a comprehension and the new population by a concatenation
+VARIANTS += (lambda form: [
+    ("select-helper-comprehension-concat-ok", _T, _T_BODY, form, "silent", None),
+    ("select-concat-through-local-ok", _T, _T_BODY, form.replace("return elite, survivors + offspring", "next_gen = survivors + offspring\n        return elite, next_gen"), "silent", None),
+    ("select-helper-returns-parent", _T, _T_BODY, form.replace("return parent.clone(index=index, wrap=False)", "parent.index = index\n        return parent"), "fire", "C01.8"),
+    ("select-helper-clones-on-one-path", _T, _T_BODY, form.replace("return parent.clone(index=index, wrap=False)", "return parent.clone(index=index, wrap=False) if self.elitism else parent"), "fire", "C01.8"),
+    ("select-concat-old-population", _T, _T_BODY, form.replace("return elite, survivors + offspring", "return elite, survivors + offspring + population[:0]"), "fire", "C01.8"),
+    ("select-concat-old-list-local", _T, _T_BODY, form.replace("survivors = [elite.clone(wrap=False)] if self.elitism else []", "survivors = [elite.clone(wrap=False)] if self.elitism else population"), "fire", "C01.8"),
+    ("select-helper-mutates-parent", _T, _T_BODY, form.replace("        return parent.clone(index=index, wrap=False)", "        parent.fitness.append(0)\n        return parent.clone(index=index, wrap=False)"), "fire", "C01.5"),
+])(
+    "        survivors = [elite.clone(wrap=False)] if self.elitism else []\n        selection_size = self.population_size - len(survivors)\n"
+    "        offspring = [\n            self._child(population, rank, index=max_id + offset)\n            for offset in range(1, selection_size + 1)\n        ]\n"
+    "        return elite, survivors + offspring\n\n    def _child(self, population, rank, index):\n        parent = population[self._tournament(rank)]\n"
+    "        return parent.clone(index=index, wrap=False)")
+# clone(): the cloned network held in a local that is stored into the container and on the copy
+_B_MODS = ("            if isinstance(obj, list):\n                cloned_modules[attr] = [m.clone() for m in obj]\n            else:\n"
+           "                cloned_modules[attr] = obj.clone()\n\n            setattr(clone, attr, cloned_modules[attr])\n")
+VARIANTS += [
+    ("cloned-module-through-local-ok", _B, _B_MODS, "            module_copy = [m.clone() for m in obj] if isinstance(obj, list) else obj.clone()\n"
+     "            cloned_modules[attr] = module_copy\n            setattr(clone, attr, module_copy)\n", "silent", None),
+    ("optimizer-over-other-copies", _B, _B_MODS, "            module_copy = [m.clone() for m in obj] if isinstance(obj, list) else obj.clone()\n"
+     "            cloned_modules[attr] = module_copy\n            module_copy = copy.deepcopy(module_copy)\n            setattr(clone, attr, module_copy)\n", "fire", "C01.9"),
+    ("optimizer-over-other-key", _B, _B_MODS, "            module_copy = [m.clone() for m in obj] if isinstance(obj, list) else obj.clone()\n"
+     "            cloned_modules[attr] = module_copy\n            attr = attr.lower()\n            setattr(clone, attr, module_copy)\n", "fire", "C01.9"),
 ]
